@@ -7,10 +7,12 @@ spec/C08/KeyFlow.tla   R-spec 2: the life of a key (export / parse through every
                        of a signature (sign / re-encode / tamper / verify through every parameter set and party).
  MC   KeyCodecMC: lemmas over all 30 473 (curve, length profile) cases + emission of the cases;  KeyFlow: complete state graph,
       action properties (only the diagonal verifies, tampering is forever, parse succeeds iff the password matches ...).
- GEN  KeyFlowGen: behaviours of the two flows (exhaustive to a small depth, -simulate for long ones).
- EXEC this module: builds integers / picks pool keys with exactly the requested profile, runs SPSDK and the independent
-      base (`cryptography` called directly with the standard parameters; pure-Python verification in lib/refpk.py) in both
-      directions and LOGS facts.  It never compares SPSDK with an expectation of its own.
+ GEN  KeyFlowGen: behaviours of the two flows (exhaustive to a small depth, -simulate for long ones; menu "sweep" = the shape
+      Sign - flip one bit - Verify, whose bit position the harness sweeps over every bit of signature / message).
+ EXEC this module: builds integers / picks pool keys with exactly the requested profile, runs SPSDK (library and the
+      `nxpcrypto` command line) and the independent base (`cryptography` called directly with the standard parameters;
+      pure-Python verification and key construction in lib/refpk.py) in both directions and LOGS facts.  It never compares
+      SPSDK with an expectation of its own.
  TV   KeyCodecTrace / KeyFlowTrace: TLC decides every observation / every trace.
 """
 import json
@@ -260,6 +262,8 @@ def indep_verify(key, Q, eff_hash, sig, enc, msg):
             pub.verify(sig, data, C["ec"].ECDSA(alg))
         return "true"
     except C["InvalidSignature"]:
+        return "false"
+    except ValueError:  # a signature the library cannot even decode does not verify
         return "false"
 
 
@@ -603,6 +607,18 @@ def replay_flow(job):
     msg = bytes(r_.randrange(256) for _ in range(job.get("msglen", r_.choice([0, 1, 7, 32, 55, 64, 100, 300]))))
     vmsg, vkey = msg, key
     want_bit = job.get("bit")  # sweep lane: the bit to flip is prescribed
+    flipped = {"sig": set(), "msg": set()}  # a second flip never undoes an earlier one: tampering is cumulative
+
+    def pick_bit(which, nbits):
+        if want_bit is not None and not flipped[which]:
+            bit = want_bit % nbits
+        else:
+            bit = r_.randrange(nbits)
+            while bit in flipped[which] and len(flipped[which]) < nbits:
+                bit = r_.randrange(nbits)
+        flipped[which].add(bit)
+        return bit
+
     sig, enc, rs = None, None, None
 
     def eff(h):
@@ -806,7 +822,7 @@ def replay_flow(job):
             what = a["what"]
             fact = {"a": "Tamper", "what": what, "bit": -1}
             if what == "sigbit":
-                bit = r_.randrange(8 * len(sig)) if want_bit is None else want_bit % (8 * len(sig))
+                bit = pick_bit("sig", 8 * len(sig))
                 b = bytearray(sig)
                 b[bit // 8] ^= 1 << (bit % 8)
                 sig = bytes(b)
@@ -816,7 +832,7 @@ def replay_flow(job):
                     vmsg = b"\x00"
                     fact["bit"] = -2  # an empty message has no bit: one zero byte is appended instead
                 else:
-                    bit = r_.randrange(8 * len(vmsg)) if want_bit is None else want_bit % (8 * len(vmsg))
+                    bit = pick_bit("msg", 8 * len(vmsg))
                     b = bytearray(vmsg)
                     b[bit // 8] ^= 1 << (bit % 8)
                     vmsg = bytes(b)
@@ -1134,7 +1150,7 @@ def run(tier):
         add("sig/sim", 1)
     else:
         add("key/2", None)
-        add("key/3", 2, rsa_keys=1, allpub=True)
+        add("key/3", 1, rsa_keys=1, allpub=True)
         add("key/4", 1, sample=5000)
         add("key/sim", 1)
         add("sig/2", 4, rsa_keys=2)
@@ -1193,7 +1209,7 @@ def run(tier):
         v.nontrivial(("codec", o["kind"], json.dumps(o["a"], sort_keys=True)))
     for t, j in zip(traces, jobs):
         if len(t["ev"]) > 1:
-            v.nontrivial(("flow", json.dumps(j["beh"], sort_keys=True), t["x"]["key"]))
+            v.nontrivial(("flow", json.dumps(j["beh"], sort_keys=True), t["x"]["key"], j.get("bit", -1)))
     v.sample({k: obs[12345][k] for k in ("kind", "a", "o")})
     v.sample({k: obs2[len(obs2) // 2][k] for k in ("kind", "a", "o")})
     for i in (3, len(traces) // 2, len(traces) - 5):
@@ -1258,10 +1274,13 @@ def run(tier):
     v.cov["rule"] = (
         "codec lane: every (curve, byte length and top bit of r and of s) - 30 473 profiles, the initial states of KeyCodecMC - concretised "
         "to integers and run through export / parse / conversion / SignatureProvider normalisation; valid-signature lane: a VALID signature per "
-        "profile (public key constructed for (r, s)) verified in both encodings, with one flipped bit and another message; flow lane: "
-        "behaviours of KeyFlow (exhaustive depth 2 and 3, simulated depth 7-8) replayed on pool keys (RSA 2048/3072/4096, P-256/384/521 with "
-        "leading zero / 0x04 / 0x30 bytes in X or Y, tiny private scalars). A case is non-trivial if it produced at least one event beyond the "
-        "key binding; distinct by (profile) resp. (behaviour, concrete key)"
+        "profile (public key constructed for (r, s); all profiles in the thorough tier, the colliding / in-window ones + a sample in the quick "
+        "tier) verified in both encodings, with one flipped bit and another message; flow lane: behaviours of KeyFlow (exhaustive depth 2, "
+        "depth 3-4 exhaustive in the thorough tier and simulated in the quick tier, simulated depth 7-8; parties: library, nxpcrypto command "
+        "line, cryptography, pure Python) replayed on pool keys (RSA 2048/3072/4096, P-256/384/521 with leading zero / 0x04 / 0x30 bytes in X "
+        "or Y, tiny private scalars); tamper sweep: Sign - flip bit i - Verify for every bit i of the signature / of a 16-byte message "
+        "(thorough) or a stratified sample (quick). A case is non-trivial if it produced at least one event beyond the key binding; "
+        "distinct by (profile) resp. (behaviour, concrete key, prescribed bit)"
     )
     v.cov["exhaustive"] = True
     v.cov["checker_cmd"] = "TLC KeyCodecMC (lemmas, case space); TLC KeyFlow (complete state graph, action properties); TLC KeyCodecTrace / KeyFlowTrace (decide every observation)"
